@@ -15,6 +15,8 @@ from .emit import emission_sites
 
 DRIVERS = ("pytest_plugin.py::pytest_sessionfinish", "testing/_example.py::Example.run_inline")
 
+from .C17 import clone_def
+
 
 def check(repo: Repo, rep, tier):
     rep.not_decided = "that repr() of a supported value evaluates back to it; comma / 1-tuple text surgery; what black does to the layout"
@@ -23,6 +25,7 @@ def check(repo: Repo, rep, tier):
     repr_parse(repo, rep)
     import_step(repo, rep)
     default_guard(repo, rep)
+    clone_def(repo, rep)
     fmt_taint_fragment(repo, rep)
 
 
